@@ -303,7 +303,13 @@ def r8_4(ctx):
             if not pl["p"] and pl["l"] == 3:
                 return int(multi)
             return None
-        rs = [r for r in cases(w, valmap) if r["end"] == "return"]
+        def oracle(t, val):
+            if mname(t) == "str::is_empty":
+                v = val(t["args"][0])
+                if isinstance(v, tuple) and v[0] == "str":
+                    return int(v[1] == "")
+            return None
+        rs = [r for r in cases(w, valmap, oracle) if r["end"] == "return"]
         seen = set()
         for r in rs:
             po = PathOrigins(w, r["path"])
@@ -311,6 +317,9 @@ def r8_4(ctx):
             try:
                 ps = pieces(res)
             except FmtError as e:
+                if peel(res).kind == "call" and method_name(peel(res).a) == "Escaper::escaped_printable":
+                    seen.add("{expr}")  # the bare rendering, returned without a format!
+                    continue
                 ctx.bad("writer:%r" % q, w.where(), "result is not a decodable format!: %s" % e)
                 continue
             shape = []
